@@ -163,16 +163,18 @@ def brentsroot(f, bounds, tol=None, verbose=False, return_interval=False):
         if D.ar_numpy.abs(fa) < D.ar_numpy.abs(fb):
             a, b = b, a
             fa, fb = fb, fa
-        conv = (fb == 0 or fs == 0 or D.ar_numpy.abs(b - a) < tol)
+        conv = (fb == 0 or fs == 0 or D.ar_numpy.abs(b - a) <= tol * D.ar_numpy.maximum(1.0, D.ar_numpy.abs(b)))
         if numiter >= 64:
             break
     if verbose:
         with numpy.printoptions(precision=17, linewidth=200):
             print(f"[{numiter}] a={D.ar_numpy.to_numpy(a)}, b={D.ar_numpy.to_numpy(b)}, f(a)={D.ar_numpy.to_numpy(fa)}, f(b)={D.ar_numpy.to_numpy(fb)}")
+    # a root is certified by a vanishing residual or by a sign change over a bracket that has shrunk to the tolerance
+    bracketed = D.ar_numpy.sign(fa) * D.ar_numpy.sign(fb) <= 0 and D.ar_numpy.abs(b - a) <= tol * D.ar_numpy.maximum(1.0, D.ar_numpy.abs(b))
     if return_interval:
-        return b, D.ar_numpy.abs(f(b)) <= tol, (a, b)
+        return b, D.ar_numpy.abs(f(b)) <= tol or bracketed, (a, b)
     else:
-        return b, D.ar_numpy.abs(f(b)) <= tol
+        return b, D.ar_numpy.abs(f(b)) <= tol or bracketed
 
 
 def brentsrootvec(f, bounds, tol=None, verbose=False, return_interval=False, accepts_mask=False):
@@ -306,10 +308,12 @@ def brentsrootvec(f, bounds, tol=None, verbose=False, return_interval=False, acc
         a[mask], b[mask] = b[mask], a[mask]
         fa[mask], fb[mask] = fb[mask], fa[mask]
 
-        conv = D.ar_numpy.logical_not(D.ar_numpy.logical_or(D.ar_numpy.logical_or(fb == 0, fs == 0), D.ar_numpy.abs(b - a) < tol))
+        width_conv = D.ar_numpy.abs(b - a) <= tol * D.ar_numpy.maximum(1.0, D.ar_numpy.abs(b))
+        conv = D.ar_numpy.logical_not(D.ar_numpy.logical_or(D.ar_numpy.logical_or(fb == 0, fs == 0), width_conv))
         conv = conv & (numiter <= 64)
         not_conv = D.ar_numpy.logical_not(conv)
-        true_conv = (D.ar_numpy.abs(fb) <= tol)
+        # a root is certified by a vanishing residual or by a sign change over a bracket that has shrunk to the tolerance
+        true_conv = (D.ar_numpy.abs(fb) <= tol) | ((D.ar_numpy.sign(fa) * D.ar_numpy.sign(fb) <= 0) & width_conv)
 
     if verbose:
         with numpy.printoptions(precision=17, linewidth=200):
